@@ -69,7 +69,7 @@ func (g *c17Gen) desc(marker string) string {
 func (g *c17Gen) opt(used map[string]bool) Opt {
 	t := g.t
 	g.n++
-	o := Opt{ID: fmt.Sprintf("o%d", g.n), Field: fmt.Sprintf("F%d", g.n), Kind: rapid.SampledFrom([]Kind{KString, KInt, KBool, KStringSlice}).Draw(t, "kind")}
+	o := Opt{ID: fmt.Sprintf("o%d", g.n), Field: fmt.Sprintf("F%d", g.n), Kind: rapid.SampledFrom([]Kind{KString, KInt, KBool, KStringSlice, KTri}).Draw(t, "kind")}
 	if rapid.IntRange(0, 9).Draw(t, "hasShort") < 6 {
 		pool := []string{"a", "b", "c", "d", "e", "f", "g", "x", "y", "z", "é", "λ", "中", "я", "ß", "日"}
 		s := rapid.SampledFrom(pool).Draw(t, "short")
@@ -201,6 +201,24 @@ func genC17(t *rapid.T) *C17Case {
 		if sc.Pos != nil {
 			break
 		}
+	}
+	if cur.Pos == nil && rapid.Bool().Draw(t, "listedCommands") {
+		// sub-commands of the innermost command are listed under "Available commands"
+		for i := rapid.IntRange(1, 3).Draw(t, "nlisted"); i > 0; i-- {
+			g.n++
+			sc := Cmd{ID: fmt.Sprintf("c%d", g.n), Name: fmt.Sprintf("%s%d", c17Word(t, "cmdName", 1, 10), g.n), Field: fmt.Sprintf("C%d", g.n), ByTag: cur.ByTag || rapid.Bool().Draw(t, "byTag2")}
+			if rapid.IntRange(0, 3).Draw(t, "cmdHasDesc") > 0 {
+				sc.Desc = "listed command"
+			}
+			if rapid.Bool().Draw(t, "cmdAlias") {
+				sc.Aliases = []string{c17Word(t, "alias", 1, 6)}
+			}
+			if !sc.ByTag {
+				sc.G.Groups = []Group{{Field: fmt.Sprintf("G%d", g.n), Desc: fmt.Sprintf("Listed Group %d", g.n)}}
+			}
+			cur.Cmds = append(cur.Cmds, sc)
+		}
+		cur.SubOpt = true
 	}
 	if rapid.IntRange(0, 2).Draw(t, "longDesc") == 0 {
 		// long description of the innermost active command, shown below the usage line
